@@ -29,9 +29,9 @@ env.import_adaptix()
 
 from hypothesis import strategies as st  # noqa: E402
 
-from adaptix import DebugTrail, NameStyle, ProviderNotFoundError, Retort, name_mapping  # noqa: E402
+from adaptix import DebugTrail, NameStyle, P, ProviderNotFoundError, Retort, name_mapping  # noqa: E402
 from adaptix import load_error as le  # noqa: E402
-from adaptix.conversion import get_converter, impl_converter, link  # noqa: E402
+from adaptix.conversion import get_converter, impl_converter, link, link_function  # noqa: E402
 
 PROP = "C19"
 DEBUG = [DebugTrail.DISABLE, DebugTrail.FIRST, DebugTrail.ALL]
@@ -50,6 +50,15 @@ KW_UNDERSCORE = [k + "_" for k in ("from", "class", "None", "True", "import", "l
 ODD = ["_", "__", "_private", "x__y", "é", "名前", "ß", "Ω", "а", "x1", "X", "aA", "a_", "a__", "_a_"]
 FIELD_IDS = INTERNAL + PREFIXED + BUILTINS + KW_UNDERSCORE + ODD
 TD_ONLY_IDS = ["ﬁ", "ǆ", "ａ"]   # NFKC-sensitive: only legal as TypedDict keys (pure data), Python normalises attribute names
+# Python keywords are identifiers for str.isidentifier() and legal TypedDict keys (functional syntax); no class body can
+# declare them, so they exist for TypedDict only
+TD_KEYWORD_IDS = ["class", "None", "True", "False", "pass", "lambda", "import", "def", "return", "from", "is", "not", "in", "if",
+                  "global", "yield", "async", "await"]
+# names of functions handed to link_function / of nested models: keywords, names of the generators' own variables, pairs that
+# collide after the "g_" prefix used for captured globals, the outer closure's own name
+LINK_FUNC_NAMES = ["pass", "class", "None", "lambda", "foo", "g_foo", "g_g_foo", "_closure_signature", "_closure_signature_1",
+                   "constant_0", "func_0", "data", "ctx", "coercer", "a_src", "src", "", "1x", "a b", "é", "convert",
+                   "__import__('vkit_canary').hit()", "{x}", "coerce_M_to_MDst", "M", "MDst", "type", "print"]
 
 CANARY = [
     "__import__('vkit_canary').hit()", "{__import__('vkit_canary').hit()}", "' + __import__('vkit_canary').hit() + '",
@@ -100,7 +109,7 @@ def st_case(draw):
     # NFKC-sensitive TypedDict keys hit an open known finding (see known_findings.json): excluded by construction for
     # most of the budget, still probed with a small share so that the KNOWN-FINDING line stays evidence-backed
     probe_known = kind == "typeddict" and draw(st.integers(0, 39)) == 0
-    pool = FIELD_IDS + (TD_ONLY_IDS * 8 if probe_known else [])
+    pool = FIELD_IDS + (TD_ONLY_IDS * 8 if probe_known else []) + (TD_KEYWORD_IDS * 2 if kind == "typeddict" else [])
     ids = draw(st.lists(st.one_of(st.sampled_from(pool), st.sampled_from(INTERNAL + PREFIXED)), min_size=n, max_size=n, unique=True))
     fields = []
     for fid in ids:
@@ -116,6 +125,11 @@ def st_case(draw):
     case = {"gen": gen, "kind": kind, "fields": fields, "cls_name": draw(st.sampled_from(CLASS_NAMES)),
             "omit_default": draw(st.booleans()),
             "debug": draw(st.integers(0, 2)), "style": draw(st.sampled_from([None, None, "CAMEL", "UPPER_KEBAB"]))}
+    if gen == "converter":
+        # extra destination fields filled by link_function functions with hostile names, and a nested pair of models named
+        # like the outer pair
+        case["link_funcs"] = draw(st.lists(st.sampled_from(LINK_FUNC_NAMES), max_size=3)) if draw(st.booleans()) else []
+        case["nested_same_name"] = draw(st.integers(0, 3)) == 0
     if gen == "impl_converter":
         case["func_name"] = draw(st.sampled_from(FUNC_NAMES))
         np = draw(st.integers(0, 3))
@@ -125,20 +139,27 @@ def st_case(draw):
     return case
 
 
+def _returning(value):
+    def fn(src_model):
+        return value
+    return fn
+
+
 def valid_field_id(fid, kind):
-    if not fid.isidentifier() or keyword.iskeyword(fid):
+    if not fid.isidentifier() or (keyword.iskeyword(fid) and kind != "typeddict"):
         return False
     if fid.startswith("__") and kind != "typeddict":
         return False  # name mangling inside class bodies: not a "legal field name" for attribute models
     return True
 
 
-def build_model(case, suffix=""):
+def build_model(case, suffix="", extra=()):
+    """``extra``: additional required fields ``(id, annotation)`` (harness-chosen safe ids)."""
     kind = case["kind"]
     name = f"C19M{next(_uid)}{suffix}"
     fields = case["fields"]
     if kind == "dataclass":
-        spec = []
+        spec = [(fid, ann) for fid, ann in extra]
         for f in sorted(fields, key=lambda f: f["opt"]):
             if f["opt"]:
                 spec.append((f["id"], typing.Any, dataclasses.field(default=PARAM_DEFAULTS[f["default"]]()
@@ -147,7 +168,8 @@ def build_model(case, suffix=""):
                 spec.append((f["id"], typing.Any))
         cls = dataclasses.make_dataclass(name, spec)
     elif kind == "typeddict":
-        cls = typing.TypedDict(name, {f["id"]: (typing.NotRequired[typing.Any] if f["opt"] else typing.Any) for f in fields})  # type: ignore[misc]
+        cls = typing.TypedDict(name, {**{f["id"]: (typing.NotRequired[typing.Any] if f["opt"] else typing.Any) for f in fields},  # type: ignore[misc]
+                                      **dict(extra)})
     else:
         params = []
         body = []
@@ -321,13 +343,48 @@ def check_case(ctx: runner.Ctx, case):  # noqa: C901, PLR0912, PLR0915
                     viol("dumped_to_wrong_keys", (kind,), f"dumped {out!r}, expected {exp!r}")
     else:
         dst_case = {**case, "cls_name": case["cls_name"] + "Dst"}
-        try:
-            dst = build_model(dst_case, "D")
-        except Exception:  # noqa: BLE001
+        link_funcs = [n for n in case.get("link_funcs") or []] if gen == "converter" else []
+        nested_same = bool(case.get("nested_same_name")) and gen == "converter"
+        used_ids = {f["id"] for f in fields}
+        lf_ids = [f"zz_lf{i}" for i in range(len(link_funcs))]
+        conv_recipe = []
+        src_extra, dst_extra = [], []
+        lf_markers = {}
+        if nested_same:
+            inner_src = dataclasses.make_dataclass(f"C19I{next(_uid)}", [("v", typing.Any)])
+            inner_dst = dataclasses.make_dataclass(f"C19I{next(_uid)}D", [("v", typing.Any)])
+            for k, nm in ((inner_src, case["cls_name"]), (inner_dst, case["cls_name"] + "Dst")):
+                try:
+                    k.__name__ = k.__qualname__ = nm
+                except (TypeError, ValueError):
+                    pass
+            src_extra.append(("zz_nested", inner_src))
+            dst_extra.append(("zz_nested", inner_dst))
+        if (set(lf_ids) | {"zz_nested"}) & used_ids:
             return
         try:
+            if src_extra or link_funcs:
+                cls = build_model(case, "", extra=src_extra)
+                try:
+                    cls.__name__ = cls.__qualname__ = case["cls_name"]
+                except (TypeError, ValueError):
+                    pass
+            dst = build_model(dst_case, "D", extra=[*dst_extra, *[(i, typing.Any) for i in lf_ids]])
+        except Exception:  # noqa: BLE001
+            return
+        for fid, fname in zip(lf_ids, link_funcs):
+            marker = ("linked", fid, object())
+            lf_markers[fid] = marker
+
+            fn = _returning(marker)
+            try:
+                fn.__name__ = fn.__qualname__ = fname
+            except (TypeError, ValueError):
+                pass
+            conv_recipe.append(link_function(fn, P[dst][fid]))
+        try:
             if gen == "converter":
-                conv = get_converter(cls, dst)
+                conv = get_converter(cls, dst, recipe=conv_recipe)
                 extra_args: tuple = ()
             else:
                 params = case.get("params", [])
@@ -368,7 +425,12 @@ def check_case(ctx: runner.Ctx, case):  # noqa: C901, PLR0912, PLR0915
         except Exception as ex:  # noqa: BLE001
             viol("generation_crashed", (type(ex).__name__, exc_site(ex)), describe(ex))
             return
-        src_obj = make_obj(cls)
+        nested_marker = ("nested", object())
+        if nested_same:
+            kw = {f["id"]: values[f["id"]] for f in fields}
+            src_obj = cls(**kw, zz_nested=inner_src(nested_marker))
+        else:
+            src_obj = make_obj(cls)
         try:
             res = conv(src_obj, *extra_args, **(extra_kw if gen == "impl_converter" else {}))
         except Exception as ex:  # noqa: BLE001
@@ -380,6 +442,15 @@ def check_case(ctx: runner.Ctx, case):  # noqa: C901, PLR0912, PLR0915
                     continue
                 if get(res, f["id"]) is not values[f["id"]]:
                     viol("field_not_copied", (kind,), f"field {f['id']!r}: {get(res, f['id'])!r}")
+            for fid, marker in lf_markers.items():
+                if get(res, fid) is not marker:
+                    viol("link_function_result_misplaced", (kind,),
+                         f"field {fid!r} must hold the result of its link_function (functions named {link_funcs!r}): "
+                         f"{get(res, fid)!r}")
+            if nested_same:
+                inner = get(res, "zz_nested")
+                if type(inner) is not inner_dst or inner.v is not nested_marker:
+                    viol("nested_same_name_pair", (kind,), f"nested model named like the outer one: {inner!r}")
     if vkit_canary.HITS:
         viol("injected_text_executed", (kind,), f"canary hits: {vkit_canary.HITS!r}")
         vkit_canary.HITS.clear()
